@@ -500,8 +500,9 @@ MANIFEST = dict(
 	engine='E-bfs',
 	technique='explicit-state breadth-first search over command / library-call histories replayed on the real database files and ORM session; state = file hashes + directory listing + abstract session state',
 	text='Every sequence of 12 CLI commands (incl. failing ones) to depth 2 (thorough 3) in one interpreter, every command and a third of all ordered pairs in fresh '
-	     'interpreters, and every library history over 13 operations (query, ORM edits, add, delete, flush, autoflush, commit, rollback, close, gc) to depth 4 (5) are '
+	     'interpreters, and every library history over 24 operations (query, ORM edits, add, delete, raw UPDATE / bulk update, flush, autoflush, commit, savepoints, '
+	     'rollback, close, gc, writable session makers requested first) to depth 4 (5) are '
 	     'executed; after every event the genome file, the signature file and the directory listing must be byte-identical to the initial state, commit() must '
-	     'raise and pending changes must remain pending after flush/autoflush.',
+	     'raise and pending changes must remain pending after flush/autoflush.  All of it again on a genome file in WAL journal mode.',
 	note='depth bounds; dedup arguments in evidence assumptions; mtimes not considered.',
 )
